@@ -308,6 +308,14 @@ where
         if remainder_poly.len() > max_degree_plus_1 {
             return Err(VerifierError::RemainderDegreeMismatch(max_degree_plus_1 - 1));
         }
+
+        // make sure the remainder polynomial is the one the prover committed to before the query
+        // positions were drawn; the commitment to the remainder follows the layer commitments
+        let remainder_commitment = H::hash_elements(&remainder_poly);
+        let num_layers = self.options.num_fri_layers(self.domain_size);
+        if self.layer_commitments.get(num_layers) != Some(&remainder_commitment) {
+            return Err(VerifierError::RemainderCommitmentMismatch);
+        }
         let offset: E::BaseField = self.options().domain_offset();
 
         for (&position, evaluation) in positions.iter().zip(evaluations) {
